@@ -68,7 +68,9 @@ class NamespaceAwareElement(ElementTree.ElementBase):
                 continue
 
             # Handle special cases (wildcards, functions, attributes, self, parent, axes)
-            if part is None or part in {'.', '..', '*'} or part.startswith('@') or '::' in part or '(' in part:
+            # Function calls and axes are recognized in the step itself, not in a predicate such as [@name='A(1)']
+            step = part.split('[', 1)[0]
+            if part is None or part in {'.', '..', '*'} or part.startswith('@') or '::' in step or '(' in step:
                 new_parts.append(part)
             else:
                 new_parts.append(f"{prefix}{part}")
